@@ -204,3 +204,74 @@ Definition run_flat (case : list Z * Z * Z * Z * list (Z * Z * Z)) : list Z :=
   let j := mk_junk mode res in
   flat_map enc_out (snd (run res j cs keep init ops))
   ++ [9; run_maxheld res j cs keep init ops].
+
+(* ---- the code before the repairs 96f1c8a / d7d4e3b, kept for the refutation
+   witnesses in Props/C19.v (not used by the correspondence) ---------------- *)
+Section HTTP_old.
+  Variable res : list Z.
+  Variable junk : Z -> Z -> list Z.
+  Variable cs keep : Z.
+
+  (* old eviction: the oldest chunk that is not chunk 0 -- possibly the
+     requested one *)
+  Definition evict_old (c : cache) : cache :=
+    match remove_first (fun k => negb (k =? 0)) c with
+    | Some c' => c'
+    | None => c
+    end.
+
+  Definition get_chunk_old (idx : Z) (c : cache) : cache * option (list Z) :=
+    let c1 := match lookup idx c with
+              | Some _ => c
+              | None => c ++ [(idx, download res junk (idx * cs)
+                                      (Z.min ((idx + 1) * cs) (len res)))]
+              end in
+    let c2 := if keep <? Z.of_nat (length c1) then evict_old c1 else c1 in
+    (c2, lookup idx c2).
+
+  Fixpoint rrc_loop_old (n : nat) (k pos toread stop : Z) (c : cache)
+           (acc : list Z) : cache * option (list Z) :=
+    match n with
+    | O => (c, Some acc)
+    | S n' =>
+        match get_chunk_old k c with
+        | (c', None) => (c', None)
+        | (c', Some chunk) =>
+            let cst := pos mod cs in
+            if toread =? 0 then (c', Some acc)
+            else if cs <=? cst + toread then
+              rrc_loop_old n' (k + 1) (pos + (cs - cst)) (toread - (cs - cst))
+                           stop c' (acc ++ skipn (Z.to_nat cst) chunk)
+            else
+              let ce := stop mod cs in
+              rrc_loop_old n' (k + 1) (pos + (ce - cst)) (toread - (ce - cst))
+                           stop c' (acc ++ slice chunk cst ce)
+        end
+    end.
+
+  (* old read_range_cached: no clipping to the length, no early return *)
+  Definition rrc_old (start stop : Z) (c : cache) : cache * option (list Z) :=
+    let toread := stop - start in
+    let k0 := start / cs in
+    let k1 := stop / cs + 1 in
+    rrc_loop_old (Z.to_nat (k1 - k0)) k0 start toread stop c [].
+
+  (* old read(size): position advanced by size, or set to the length *)
+  Definition step_old (s : state) (o : op) : state * out :=
+    match o with
+    | Read n =>
+        match rrc_old (pos s) (pos s + n) (chunks s) with
+        | (c', Some d) =>
+            ({| pos := if 0 <? n then pos s + n else len res; chunks := c' |},
+             OData d)
+        | (c', None) => ({| pos := pos s; chunks := c' |}, OKeyError)
+        end
+    | _ => step res junk cs keep s o
+    end.
+
+  Fixpoint run_old (s : state) (ops : list op) : list out :=
+    match ops with
+    | [] => []
+    | o :: ops' => let '(s', r) := step_old s o in r :: run_old s' ops'
+    end.
+End HTTP_old.
